@@ -33,7 +33,7 @@ ASSUMPTIONS = [
     "d=4 and full layouts of inv/div/pow/outertan/sqrt/sw/proj/normsq only for d<=3 (cost of symbolic generation)",
     "exact comparison when all coefficients stay exact; 1e-9 relative over the union of key sets once floats enter (outer "
     "series contain float constants, sqrt/exp/norm are float functions)",
-    "default options (cse on, no wrapper); wrapper/registered variants belong to C09",
+    "a quarter of the cases run on an algebra with a pass-through wrapper (name-based dispatch path); other options: C13",
 ]
 REQUIRED_LABELS = {"variant:perm": 0.1, "variant:pad": 0.1, "variant:full": 0.05}
 
@@ -65,7 +65,7 @@ def _cases(draw, tier):
     cap = 6 if (heavy and d >= 4) else None
     if op == "outertan" and d >= 3:
         cap = 4      # symbolic division: a full d=3 layout was measured at 29 s per generated function
-    case = {"cfg": cfg, "op": op}
+    case = {"cfg": cfg, "op": op, "wrapper": draw(st.integers(0, 3)) == 0}
     classes = ["single", "sparse", "sparse", "gradeblock", "perm"]
     if op in ("sqrt", "pow0.5"):
         k = draw(st.integers(1, n - 1)) if n > 1 else 0
@@ -151,7 +151,7 @@ def evaluate(case):
     cfg, op = case["cfg"], case["op"]
     ref = RefAlgebra(cfg)
     d = ref.d
-    alg = kd.build_algebra(cfg)
+    alg = kd.build_algebra(cfg, wrapper=bool(case.get("wrapper")))
     floaty = op in FLOATOPS
     conv = (lambda v: float(frac(v))) if floaty else frac
     zero = 0.0 if floaty else F(0)
@@ -199,14 +199,14 @@ def evaluate(case):
             pass
     differs = (list(ka2) != list(ka)) or (kb is not None and list(kb2) != list(kb))
     vk = {case["va"]["kind"]} | ({case["vb"]["kind"]} if "vb" in case else set())
-    labels = [f"op:{op}", f"d:{d}", "result:" + r1[0]]
+    labels = [f"op:{op}", f"d:{d}", "result:" + r1[0]] + (["opt:wrapper"] if case.get("wrapper") else [])
     if any("perm" in k for k in vk):
         labels.append("variant:perm")
     if any("pad" in k for k in vk):
         labels.append("variant:pad")
     if any(k.startswith("full") for k in vk):
         labels.append("variant:full")
-    key = [cfg["sig"], cfg.get("start"), cfg.get("basis"), op, ka, kb, ka2, kb2, n]
+    key = [cfg["sig"], cfg.get("start"), cfg.get("basis"), op, ka, kb, ka2, kb2, n, bool(case.get("wrapper"))]
     return Info(differs, labels, key, counters)
 
 
